@@ -43,7 +43,8 @@ TRUSTED = ['Pass/BasicGates.v control skeletons (ripple / lt accumulation / Wall
            'Pass/Synth.v (hand model of synthesize + _decompose as per-net gate-expression groups with the '
            'small-step semantics gstep/grun of 1-bit wires, 1-bit registers and word-level memories), tied '
            'behaviourally: every wire of every cycle of every design of part (b)',
-           'Pass/SynthHarness.v shapeb (the C03 shape predicate) and its Python mirror py_shape_ok',
+           'Pass/SynthHarness.v shapeb (the C03 shape predicate) and its Python mirror py_shape_ok; '
+           'Pass/Flatten.v (gate groups -> Syntax.netlist) is a definition used only inside theorems/examples',
            'integer arithmetic in py/checks/C03.py expected() as the specification of each word-level op in '
            'part (a); Netlist/Sem.v elsewhere']
 ASSUMPTIONS = ['arguments of two-operand nets have equal bitwidth >= 1, mux branches equal bitwidth, select '
@@ -51,8 +52,12 @@ ASSUMPTIONS = ['arguments of two-operand nets have equal bitwidth >= 1, mux bran
                'evaluated to true on every dumped design)',
                'default_value = 0 (the property speaks of reset/initial values and memory contents only)',
                'ROM contents are tabulated at dump time',
-               'the synthesized block is modelled as gate-expression trees (no sharing of common carries) with '
-               'its own bit-level semantics, not as a Syntax.netlist with fresh wire ids under Sem.run',
+               'the synthesized block is modelled as per-net gate-expression TREES (the carries the real block '
+               'shares are duplicated); Pass/Flatten.v turns them into a Syntax.netlist with fresh 1-bit wires and '
+               'C03_simulation_netlist relates Sem.run of that netlist to Sem.run of the original; the real block and '
+               'the model are tied behaviourally (every wire bit, every cycle), not net-for-net',
+               'original wire ids are positive and strictly increasing in the dump (ids_okb; py/nlx.py numbers them '
+               '1..n) -- premise of C03_simulation_netlist only',
                'designs of part (b) are limited to widths <= 33 (Wallace trees of wider multipliers make '
                'Simulation of the gate netlist too slow for the budget); the theorems are for all widths',
                'Coq shapeb is evaluated on real blocks of <= %d nets (it is quadratic); larger blocks are checked '
@@ -307,6 +312,8 @@ def part_a_truncated(ctx):
         base = '%s 0 [] [] %s' % (dump.coq(), dump.inputs(inputs))
         exprs.append('spec_case %s []' % base)
         exprs.append('synth_case %s %s' % (base, outids))
+        # the flattened model netlist under Sem.run (gate trees: only the small widths are executable)
+        exprs.append('flat_case %s %s %s' % (dump.coq(), dump.inputs(inputs), outids) if n <= 2 else '[[1; 1; 1]]')
         cases.append(dict(n=n, outs=outs, inputs=inputs, got=got_rows, names=dump.names(), merge=merge))
     try:
         res = ctx.coq_eval(exprs, IMPORTS_SPEC + '\n' + IMPORTS_SYNTH, tag='c03trunc', shard=1, jobs=8)
@@ -314,7 +321,15 @@ def part_a_truncated(ctx):
         ctx.model_mismatch('truncated-destination cases could not be evaluated in Coq: %s' % str(e)[-600:], {})
         return
     for k, c in enumerate(cases):
-        spec, model = res[2 * k], res[2 * k + 1]
+        spec, model, flat = res[3 * k], res[3 * k + 1], res[3 * k + 2]
+        if flat[0] != [1, 1, 1]:
+            ctx.model_mismatch('flatten of the model: ids_okb / shapeb merged / shapeb unmerged = %r on the hand-built '
+                               'design n=%d' % (flat[0], c['n']), {})
+        if len(flat) > 1:
+            ctx.count('flatten_sem_run_cycles', 'n=%d' % c['n'], len(flat) - 1)
+            if flat[1:] != c['got']:
+                ctx.model_mismatch('Sem.run of the flattened model netlist and the real synthesized block disagree on '
+                                   'the hand-built design n=%d' % c['n'], {})
         cols = [c['names'].index(o.name) for o, _, _ in c['outs']]
         if spec[0][0] != 1 or model[0][0] != 1:
             ctx.model_mismatch('wfb/synth_okb false on the hand-built truncated design n=%d' % c['n'], {})
@@ -327,7 +342,10 @@ def part_a_truncated(ctx):
                        'expected': exp, 'got': got, 'merge_io_vectors': c['merge']}
                 if got != exp and (tag, wd, 's') not in seen:
                     seen.add((tag, wd, 's'))
-                    ctx.spec_violation('synthesize:truncated-dest:op=%s' % tag,
+                    sig = 'synthesize:truncated-dest:op=%s' % tag
+                    if tag == 'sub' and wd == c['n'] + 1 and (got ^ exp) == 1 << c['n']:
+                        sig = 'synthesize:sub-top-bit'
+                    ctx.spec_violation(sig,
                                        'synthesized %s net with %d-bit destination (args %d bits): %s -> %d, Sem says %d' % (
                                            tag, wd, c['n'], vals, got, exp), rep)
                 if got != mod and (tag, wd, 'm') not in seen:
